@@ -16,7 +16,8 @@ RULE = ("documents of 0..200 entries (1..3 accessions, 0..2 names, sequence text
         "schema-invalid attribute value, gzip stream truncated or one byte flipped at random. "
         "non-trivial = at least one entry; distinct by case text")
 EXHAUSTIVE = {"quick": True, "thorough": True}
-TRUSTED_BASE = ["encoding/xml (abstract decoder of the model; its token trace is observed by the harness on every case)",
+TRUSTED_BASE = ["encoding/xml (abstract decoder of the model; its token trace is observed by the harness on every case and compared "
+                "with the trace of the Lean reader Spec.XmlScan.scanDoc on the same text)",
                 "compress/gzip", "the Go scheduler and memory model (-race runs look for data races)",
                 "Entry/SequenceType unmarshalling is exercised through the judge (delivered accessions, names, sequence) only"]
 ASSUMPTIONS = ["RULING (gzip header unreadable): uniprot.Read returns its error synchronously and that error is the report; the "
@@ -32,14 +33,28 @@ ASSUMPTIONS = ["RULING (gzip header unreadable): uniprot.Read returns its error 
                "encoding/xml syntax and reader errors are sticky (checked on every case, reported as class tag /nonsticky otherwise)",
                "documents are ASCII",
                "a consumer is determined by the channels it is blocked on as a function of what it has received"]
-PARTIAL = []
+PARTIAL = ["content clauses (clause 1 'exactly those k entries with the accessions, names and sequence text of each', clause 2 'the "
+           "entries that precede the damage'): proved at the level of the document TEXT for the independent reader "
+           "Spec.XmlScan.scanDoc (scan_document, document_delivers, scan_prefix, damaged_document_delivers) over documents of the "
+           "XML subset (no entities, CDATA, ']' in text; schema-valid attribute values). MISSING: that encoding/xml + the Entry "
+           "unmarshalling behave like scanDoc is not proved - it is compared on every generated text, damaged ones included "
+           "(everything the Parse loop depends on: entries with contents, sawElement, how the stream ends)",
+           "clause 2 'reports at least one error': proved for every stream whose trace is not that of a well-formed document "
+           "(damaged_terminates, damaged_document_delivers). MISSING: a document-level theorem that every truncated or corrupted "
+           "text has such a trace (the reader's / decoder's error detection = XML well-formedness checking); the judge demands "
+           ">= 1 error on every constructed damage, and scanDoc agrees with the decoder on all of them",
+           "termination of the DECODER on a finite input is built into the model's finite traces; the original defect (endless "
+           "re-sending of a sticky error) is visible to the correspondence only"]
 TECHNIQUE = ("Lean 4 proof over the token loop of uniprot.Parse on an abstract decoder, as a producer on two channels of a "
              "small-step channel semantics; all schedules, all capacities; independent document writer; differential "
              "correspondence on channel traces using the real decoder's token trace")
 LEVEL_TEXT = ("Kernel-checked for every trace, EVERY capacity pair (0 included), both consumers and every schedule: terminates, "
               "delivers_prefix, wellformed_delivers, damaged_terminates (no capacity hypothesis since 1559ed9), "
-              "sticky_errors_le_two, document_delivers (clause 1 on the documents of Spec/UniprotDoc: exactly the k entries "
-              "with their accessions, names and sequence text), run_is_maximal; report_before_close_blocks records why the "
+              "sticky_errors_le_two, run_is_maximal; at the level of the document TEXT, for the independent reader Spec.XmlScan "
+              "(lexer + nesting + Parse loop + DecodeElement as a state machine): scan_document (the text of a document reads "
+              "back as exactly its k entries with their accessions, names, sequence), document_delivers, scan_prefix and "
+              "damaged_document_delivers (any stream that agrees with the document through an entry's end tag delivers the "
+              "entries up to it first, closes both channels, reports every kept error); report_before_close_blocks records why the "
               "old send order was a defect. Termination of the DECODER is an assumption built into the model's finite traces: "
               "the original defect (endless re-sending of a sticky error) is visible to the correspondence only. Tied to the "
               "code by correspondence of (closed, #errors, delivered entries) against the model run on the token trace "
